@@ -102,6 +102,16 @@ theorem uniq_advance {s : St} (fuel : Nat) (c : RCtx)
   rw [h1, h2, h3, h4, h5, (inert_disp h8).1, heldNum_inert h8]
   exact hu
 
+theorem uniq_raise {s : St} (c : RCtx) (code : Nat)
+    (hu : UniqF s.info s.c2s s.s2c s.threads s.extents none none) : Uniq (raiseRead s c code) := hu
+
+theorem uniq_afterCheck {s : St} (c : RCtx)
+    (hu : UniqF s.info s.c2s s.s2c s.threads s.extents none none) : Uniq (afterCheck s c) := by
+  unfold afterCheck
+  split
+  · exact uniq_raise (s := { s with saved := none }) c _ hu
+  · exact uniq_advance _ _ hu
+
 theorem uniq_finish {s : St} (c : RCtx)
     (hu : UniqF s.info s.c2s s.s2c s.threads s.extents none none) : Uniq (finish s c) := hu
 
@@ -166,6 +176,21 @@ theorem dictHas_dictDel_inv {α : Type} {d : List (Nat × α)} {k m : Nat}
 /-! ## the non-reader actions -/
 
 theorem uniq_serve {s s' : St} {k : Nat} (hu : Uniq s) (h : step s (.serve k) = some s') : Uniq s' := by
+  simp only [step] at h
+  cases hc : s.c2s with
+  | nil => simp [hc] at h
+  | cons num rest =>
+    simp only [hc] at h
+    cases hinf : s.info[num]? with
+    | none => simp [hinf] at h
+    | some inf =>
+      simp only [hinf] at h
+      cases h
+      unfold Uniq at hu ⊢
+      rw [hc] at hu
+      exact uniqF_mono hu (fun n => Nat.le_of_eq (cnt_serve num rest s.s2c _ _ n)) hu.dispW (fun _ x => x)
+
+theorem uniq_serveFail {s s' : St} {k : Nat} (hu : Uniq s) (h : step s (.serveFail k) = some s') : Uniq s' := by
   simp only [step] at h
   cases hc : s.c2s with
   | nil => simp [hc] at h
@@ -434,7 +459,7 @@ theorem uniq_rStep {s s' : St} (hl : Live s) (hu : Uniq s) (h : step s .rStep = 
           (by intro m hm; simp [dispNum] at hm; subst hm; exact ⟨j, o, l, hinfo⟩)
           (by intro m hm; simp [heldNum] at hm)
       · cases h
-        apply uniq_advance
+        apply uniq_afterCheck
         exact uniqF_mono hu (fun m => cnt_pop_drop s.c2s num r rest m) (by intro m hm; cases hm)
           (by intro m hm; cases hm)
   | dispPf c num r =>
@@ -443,7 +468,7 @@ theorem uniq_rStep {s s' : St} (hl : Live s) (hu : Uniq s) (h : step s .rStep = 
     | none => simp [ha] at h
     | some s1 =>
       simp only [ha] at h; cases h
-      exact uniq_advance _ _ (uniq_asyncResponse hu0 (by rw [hpc]; rfl) ha)
+      exact uniq_afterCheck _ (uniq_asyncResponse hu0 (by rw [hpc]; rfl) ha)
   | allocSync c =>
     simp only [hpc] at h; cases h
     rw [hpc] at hu
@@ -528,6 +553,9 @@ theorem uniq_rStep {s s' : St} (hl : Live s) (hu : Uniq s) (h : step s .rStep = 
         | eof =>
           simp only at h; cases h
           exact uniq_finish _ hdrop
+        | err code =>
+          simp only at h; cases h
+          exact uniq_raise _ _ hdrop
       · simp only [hn, if_false] at h
         split at h
         · rename_i o l j hinfo
@@ -552,6 +580,7 @@ theorem uniq_rStep {s s' : St} (hl : Live s) (hu : Uniq s) (h : step s .rStep = 
 theorem step_uniq {s s' : St} {a : Act} (hl : Live s) (hu : Uniq s) (h : step s a = some s') : Uniq s' := by
   cases a with
   | serve k => exact uniq_serve hu h
+  | serveFail k => exact uniq_serveFail hu h
   | tCheck i => exact uniq_tCheck hu h
   | tAlloc i => exact uniq_tAlloc hu h
   | tSend i => exact uniq_tSend hl hu h
@@ -640,11 +669,14 @@ theorem blocked_not_stuck {s : St} (hl : Live s) (hu : Uniq s) (hb : ReaderBlock
     | cons e rest =>
       obtain ⟨n', r⟩ := e
       simp only [hq] at hstep
-      split at hstep
-      · split at hstep
-        · split at hstep <;> cases hstep
-        · cases hstep
-      · split at hstep <;> cases hstep
+      by_cases hn : n' = n
+      · simp only [hn, if_true] at hstep
+        cases r with
+        | data d => simp only at hstep; split at hstep <;> cases hstep
+        | eof => simp only at hstep; cases hstep
+        | err code => simp only at hstep; cases hstep
+      · simp only [hn, if_false] at hstep
+        split at hstep <;> cases hstep
   | dispPf c n r =>
     simp only [hpc] at hstep
     cases ha : asyncResponse s n r with
